@@ -382,6 +382,15 @@ func (w *Worker) apply(st *Stim) {
 			b, _ = hex.DecodeString(st.Hex)
 			w.Log.Add(Event{Ev: "rawsend", C: c.Name, Bytes: IntBytes(b)})
 		}
+		if st.Kind == "hold" && len(st.Cuts) > 0 && st.Cuts[0] > 0 && st.Cuts[0] < len(b) {
+			// only the first part is written now; the rest follows with "sendrest" (so that several clients can each
+			// have half a request pending at the same time)
+			if err := c.Write(b[:st.Cuts[0]]); err != nil {
+				w.Log.Add(Event{Ev: "sendfail", C: c.Name, Txt: err.Error()})
+			}
+			c.Held = append([]byte(nil), b[st.Cuts[0]:]...)
+			return
+		}
 		// a write cut into chunks: each chunk but the last is read by the proxy in an iteration of its own
 		prev := 0
 		for _, cut := range st.Cuts {
@@ -416,6 +425,15 @@ func (w *Worker) apply(st *Stim) {
 			}
 		} else if err := c.Write(b); err != nil {
 			w.Log.Add(Event{Ev: "sendfail", C: c.Name, Txt: err.Error()})
+		}
+	case "sendrest":
+		if c, ok := w.Clients[st.C]; ok && !c.Closed && c.Held != nil {
+			if err := c.Write(c.Held); err != nil {
+				w.Log.Add(Event{Ev: "sendfail", C: c.Name, Txt: err.Error()})
+			}
+			c.Held = nil
+		} else {
+			w.Unreal++
 		}
 	case "cclose":
 		if c, ok := w.Clients[st.C]; ok && !c.Closed {
